@@ -3,7 +3,7 @@ C04 — where login entries come from: no dictionary operation other than `ident
 (`step_auth`), lookups create none, and the plugin only runs `identify` after the password test.
 -/
 import LimnoriaModel.C04.Plugin
-import LimnoriaModel.C04.Lemmas
+import LimnoriaModel.C04.Overlap
 namespace C04
 open Py C03
 
@@ -420,15 +420,16 @@ theorem convUser_state (st : St) (p : Str) : (convUser st p).1 = (getUserId st p
 structure Quiet (st st' : St) : Prop where
   inv : Inv st → Inv st'
   auth : AuthFrom st.db.users [] st'.db.users
+  masks : MasksFrom st.db.users st'.db.users
   now : st'.now = st.now
 
-theorem quiet_refl (st : St) : Quiet st st := ⟨id, authFrom_refl _ _, rfl⟩
+theorem quiet_refl (st : St) : Quiet st st := ⟨id, authFrom_refl _ _, masksFrom_refl _, rfl⟩
 
 theorem quiet_trans {a b c : St} (h1 : Quiet a b) (h2 : Quiet b c) : Quiet a c :=
-  ⟨fun hi => h2.inv (h1.inv hi), authFrom_trans h1.auth h2.auth, h2.now.trans h1.now⟩
+  ⟨fun hi => h2.inv (h1.inv hi), authFrom_trans h1.auth h2.auth, masksFrom_trans h1.masks h2.masks, h2.now.trans h1.now⟩
 
 theorem quiet_getUserId (st : St) (s : Str) : Quiet st (getUserId st s).1 :=
-  ⟨fun hi => getUserId_inv hi s, getUserId_auth st s, (getUserId_frame st s).1⟩
+  ⟨fun hi => getUserId_inv hi s, getUserId_auth st s, getUserId_masks st s, (getUserId_frame st s).1⟩
 
 theorem quiet_getUser (st : St) (s : Str) : Quiet st (getUser st s).1 := by
   rw [getUser_state]; exact quiet_getUserId st s
@@ -702,13 +703,14 @@ structure PInv (pwOk : Str → Str → Bool) (pst : PSt) : Prop where
   inv : Inv pst.st
   backed : AuthBacked pst
   logOK : LogOK pwOk pst
+  disjoint : NoCommon pst.st.db.users
 
 theorem pstep_pinv {pwOk : Str → Str → Bool} {pst : PSt} (hi : PInv pwOk pst) (c : Cmd) :
     PInv pwOk (pstep pwOk pst c).1 := by
   have hq := quiet_guard pwOk pst c
   rcases pstep_cases pwOk pst c with ⟨_, hst, hpws, hlog⟩ | ⟨op, hg, hst, ⟨extra, hpws⟩, hlogc⟩
   · -- the guard answered: only lookups happened
-    refine ⟨by rw [hst]; exact hq.inv hi.inv, ?_, ?_⟩
+    refine ⟨by rw [hst]; exact hq.inv hi.inv, ?_, ?_, ?_⟩
     · intro u hu e he
       rw [hst] at hu
       rcases hq.auth u hu e he with ⟨v, hv, hid, hev⟩ | hx
@@ -719,9 +721,10 @@ theorem pstep_pinv {pwOk : Str → Str → Bool} {pst : PSt} (hi : PInv pwOk pst
       rw [hlog] at hl
       rw [hpws]
       exact hi.logOK l hl
+    · rw [hst]; exact noCommon_of_masksFrom hi.disjoint hq.masks
   · -- one dictionary operation ran
     have hsa := step_auth (guard pwOk pst c).1 op
-    refine ⟨by rw [hst]; exact step_inv (hq.inv hi.inv) op, ?_, ?_⟩
+    refine ⟨by rw [hst]; exact step_inv (hq.inv hi.inv) op, ?_, ?_, ?_⟩
     · intro u hu e he
       rw [hst] at hu
       have hsub : ∀ l, l ∈ pst.log → l ∈ (pstep pwOk pst c).1.log := by
@@ -768,6 +771,8 @@ theorem pstep_pinv {pwOk : Str → Str → Bool} {pst : PSt} (hi : PInv pwOk pst
           | some s' =>
             rw [hlk] at hpw
             exact ⟨s', lookup_append_of_some hlk, hpw⟩
+    · rw [hst]
+      exact step_noCommon (hq.inv hi.inv) (noCommon_of_masksFrom hi.disjoint hq.masks) op
 
 theorem prun_pinv {pwOk : Str → Str → Bool} {pst : PSt} (hi : PInv pwOk pst) (cs : List Cmd) :
     PInv pwOk (prun pwOk pst cs) := by
@@ -780,10 +785,11 @@ theorem prun_pinv {pwOk : Str → Str → Bool} {pst : PSt} (hi : PInv pwOk pst)
 
 theorem pinit (pwOk : Str → Str → Bool) (db : Db) (h : db.users = []) :
     PInv pwOk { st := { db := db } } := by
-  refine ⟨⟨⟨by rw [h]; simp, ?_, ?_⟩, cacheInv_empty rfl rfl⟩, ?_, ?_⟩
+  refine ⟨⟨⟨by rw [h]; simp, ?_, ?_⟩, cacheInv_empty rfl rfl⟩, ?_, ?_, ?_⟩
   · intro u hu; rw [h] at hu; cases hu
   · intro u hu; rw [h] at hu; cases hu
   · intro u hu; simp only at hu; rw [h] at hu; cases hu
   · intro l hl; cases hl
+  · intro u hu; simp only at hu; rw [h] at hu; cases hu
 
 end C04
